@@ -114,6 +114,17 @@ impl Leg for Random {
         let seq = c.full();
         let mut v = check_case(&seq, c.w, c.m);
         v.class_if(seq.len() > 65536, "len>65536");
+        if v.fail.is_none() && seq.len() <= 4096 {
+            let base: Vec<(u64, usize, usize)> = MinimiserGenerator::new(&seq, c.w, c.m).collect();
+            for t in 0..16 {
+                let a = crate::util::Aligned::new(&seq, t);
+                let g: Vec<(u64, usize, usize)> = MinimiserGenerator::new(a.get(), c.w, c.m).collect();
+                if g != base {
+                    v.fail("depends-on-address-alignment", format!("with the first byte at an address = {} mod 16: {:?}, otherwise {:?} (w={}, m={})", t, g, base, c.w, c.m));
+                    break;
+                }
+            }
+        }
         v
     }
 }
@@ -392,7 +403,23 @@ impl Leg for Cold {
     }
 }
 
+/// histories on one thread: minimiser (and k-mer) iterators alive together, advanced in a generated interleaving, dropped early, rebuilt
+pub struct Sessions;
+impl Leg for Sessions {
+    type Case = super::sessions::Session;
+    const NAME: &'static str = "call-histories";
+    fn strategy(_tier: Tier) -> BoxedStrategy<Self::Case> {
+        super::sessions::strategy(&[1, 1, 0])
+    }
+    fn check(c: &Self::Case) -> Verdict {
+        super::sessions::check(c)
+    }
+}
+
 pub fn run(ctx: &mut Ctx) {
+    let ns = ctx.share(ctx.tier.pick(8_000, 160_000));
+    ctx.run_leg::<Sessions>(ns, false, 400);
+
     let nc = ctx.share(ctx.tier.pick(400, 8_000));
     ctx.run_leg::<Cold>(nc, false, 40);
     super::coldstart::infra_inconclusive(ctx);
@@ -428,6 +455,7 @@ pub fn replay(leg: &str, case: &serde_json::Value) -> Option<Result<Verdict, Str
         "offsets-beyond-2^32" => Some(crate::engine::replay_leg::<Far>(case)),
         "giant-python" => Some(crate::engine::replay_leg::<GiantPython>(case)),
         "cold-start-threads" => Some(crate::engine::replay_leg::<Cold>(case)),
+        "call-histories" => Some(crate::engine::replay_leg::<Sessions>(case)),
         _ => None,
     }
 }
